@@ -844,6 +844,11 @@ func callOps() []callOp {
 			s3, e3 := wkt.NewEncoder().Encode(a.g)
 			return dig(s1, s2, s3, errK(e1), errK(e2), errK(e3))
 		}},
+		// results are values: what the encoders returned for the argument, digested at once (now) and digested after every
+		// one of them has been called again for ANOTHER geometry (kept). CallsTrace demands the same digest (AloneOf): a result
+		// that lives in a pooled or reused buffer is overwritten by the later call.
+		{"encoders.kept", func(a *callArg) string { return encodersDigest(a, true) }},
+		{"encoders.now", func(a *callArg) string { return encodersDigest(a, false) }},
 		// an encoder value that has a history of its own (a call that failed half way through a collection, a call that
 		// succeeded) against a new one: CallsTrace demands the same result for the pair (AloneOf)
 		{"wkt.Encoder.reused", func(a *callArg) string {
@@ -1101,6 +1106,43 @@ func callOps() []callOp {
 		}
 	}
 	return ops
+}
+
+// encodersDigest: every encoder that hands out bytes, on a.g; with again=true each is called once more on another geometry
+// before the first results are digested.
+func encodersDigest(a *callArg, again bool) string {
+	nan := wkbcommon.WKBOptionEmptyPointHandling(wkbcommon.EmptyPointHandlingNaN)
+	all := func(g geom.T) []any {
+		b1, e1 := wkb.Marshal(g, wkb.NDR, nan)
+		b2, e2 := ewkb.Marshal(g, ewkb.XDR)
+		b3, e3 := geojson.Marshal(g)
+		v4, e4 := (&wkb.Geom{T: g}).Value()
+		var v5 any
+		var e5 error
+		if gc, ok := g.(*geom.GeometryCollection); ok {
+			v5, e5 = (&ewkb.GeometryCollection{GeometryCollection: gc}).Value()
+		} else if pt, ok := g.(*geom.Point); ok {
+			v5, e5 = (&ewkb.Point{Point: pt}).Value()
+		} else if pg, ok := g.(*geom.Polygon); ok {
+			v5, e5 = (&ewkb.Polygon{Polygon: pg}).Value()
+		}
+		var b6 []byte
+		ge, e6 := geojson.Encode(g)
+		if e6 == nil && ge != nil && ge.Coordinates != nil {
+			b6 = []byte(*ge.Coordinates)
+		}
+		b7, e7 := (&geojson.Feature{ID: "k", Geometry: g, Properties: map[string]interface{}{"a": 1.0}}).MarshalJSON()
+		s8, e8 := wkt.Marshal(g)
+		s9, e9 := wkbhex.Encode(g, wkb.NDR, nan)
+		return []any{b1, b2, b3, v4, v5, b6, b7, s8, s9, errK(e1), errK(e2), errK(e3), errK(e4), errK(e5), errK(e6), errK(e7), errK(e8), errK(e9)}
+	}
+	first := all(a.g)
+	if again {
+		other := geom.NewPolygonFlat(geom.XYZ, []float64{9, 9, 1, 19, 9, 2, 19, 19, 3, 9, 9, 1}, []int{12})
+		_ = all(other)
+		_ = all(geom.NewPointFlat(geom.XY, []float64{-7, -8}))
+	}
+	return dig(first...)
 }
 
 type hullCmp struct{}
